@@ -42,7 +42,17 @@ CHECKS["C10"] = {
     "design_ref": "4.2",
 }
 
+CHECKS["C17"] = {
+    "engine": "entropy-history-sim",
+    "level": "exploration",
+    "text": "Seeded histories of artifact constructions (SB2.0/2.1 default, partly explicit and explicit parameters; encrypted MBI through the generated class and through load_from_config; OTFAD, IEE, BEE key blobs; HAB DEK and nonce) across 1..3 simulated interpreter lifetimes (forked children that import spsdk afresh in a plan-chosen module order). OS entropy is replaced by an injective counter device and the wall clock by a simulated one that the plan repeats or steps back across restarts, so two equal secrets can only come from reuse in the code (default argument, class-level value, value derived from the clock). Oracle: all self-chosen slots of a history are pairwise distinct and no (key, nonce) pair repeats. Sampling of histories, not proof.",
+    "note": "Trusted: the entropy/clock seams at the stdlib boundary (secrets, os.urandom, time, datetime), fork + fresh import as the model of a restart, the slot readers in /verif/c17/epoch.py. OpenSSL's own RNG is not observed.",
+    "technique": "deterministic simulation with fault injection: injective entropy device + repeatable clock across simulated restarts, seeded construction histories, pairwise-freshness oracle",
+    "design_ref": "4.3",
+}
+
 ENGINES = [
+    {"name": "entropy-history-sim", "path": "c17/", "serves_properties": ["C17"], "kind_free_text": "fork-per-epoch simulator with injective entropy and simulated wall clock"},
     {"name": "bootlink-sim", "path": "c10/", "serves_properties": ["C10"], "kind_free_text": "host/device co-simulation over a simulated UART / USB-HID link with discrete-event time"},
     {"name": "dbcache-sim", "path": "c18/", "serves_properties": ["C18"], "kind_free_text": "fork-zygote process simulator with OS-interface interposition and a seeded scheduler"},
 ]
